@@ -1,0 +1,6 @@
+//go:build !verif
+
+package lazyproto
+
+// verifPoint is a no-op unless the package is built with the "verif" tag (see verif_on.go).
+func verifPoint(string, *DecodeResult) {}
